@@ -18,7 +18,7 @@ func init() {
 	register(&explore.Prop{
 		ID: "C05", Level: levelMC, Explorer: "E2 sequence explorer, state mode (explicit-state BFS to a fixpoint over the real iterator's private state)",
 		Rule: "configurations = POST(N) postings lists (4 payload kinds per doc) x chunk modes {1,2,3,4,1024,1025} (+ the 1-hit form via a one-segment merge; + under modes 2 and 1025 the same list as re-written by the merger) x exclusion (every subset of the list, with and without one foreign doc; in the quick tier the foreign-doc variant runs under flags 000 and 111 only) or ReplaceActual bitmap (every subset) x all 8 flag combinations; per configuration BFS over states = (VerifStateIter dump of the real PostingsIterator, model position, last Advance target, calls after end) with operations Next and Advance(d) for every d in [last target, numDocs+2]; search runs to a fixpoint (all call sequences of any length), two extra calls after the end check 'nil stays nil'; every transition is compared with the model (doc number, and freq/norm/locations when requested; zero-or-correct when not); Count() checked per configuration; LARGE lists (adaptive multi-chunk, 1024..3073 documents, and 66 000 documents crossing document number 65 536) are walked with Next and with Advance strides; " +
-			"distinct = configurations; non-trivial = configuration in which some Advance skips >=1 posting or an exclusion removes >=1 posting; counters.cross_chunk_skips = transitions whose Advance skipped across a chunk boundary",
+			"further families: LARGE-ITER (incl. 66 000 documents), SPARSE-LARGE (six postings in 3000 / 5000 documents, every subset excluded, Next and Advance strides, four flag sets, two modes), the ZOO; distinct = configurations; non-trivial = configuration in which some Advance skips >=1 posting or an exclusion removes >=1 posting; counters.cross_chunk_skips = transitions whose Advance skipped across a chunk boundary",
 		Assumptions: append(append([]string{}, commonAssumptions...), "state abstraction = Appendix B of DESIGN.md; cross-validated against path mode (no merging) on every configuration with <=3 documents: every path-mode state must be a BFS state and verdicts must agree"),
 		Budget:      qBudget, Run: runC05,
 	})
